@@ -53,7 +53,7 @@ MANIFEST = dict(
          "CLIENT side (tei/client.go, tei/time.go; model coq/TeiClient.v over an arbitrary engine process, and over Tei.v as that process): the engine that reads the "
          "client's teinewgame + position lines holds exactly the position given, for every position of C10's exact round trip (client_position_line_exact); the "
          "durations the engine parses from the client's go line are the client's deadline and clock values rounded down to whole ms, never below 0, and the client "
-         "refuses exactly the clock values that are neither 0 nor >= 1 ms (client_go_line, client_go_refused); NewGame ; TEIGetMove against the engine model with a "
+         "refuses exactly the clock values that are neither 0 nor >= 1 ms (client_go_line, client_go_refused); hence the engine's budget for the client's go line is below the CLIENT's clock of the side to move and at most the time to the client's deadline when that is >= 1 ms (client_budget_within_clock; a nearer deadline is sent as movetime 0 = uncapped: client_deadline_below_1ms_uncapped); NewGame ; TEIGetMove against the engine model with a "
          "searcher_ok searcher returns the searcher's move, legal in the position, via FormatMove/ParseMove (client_server_move_legal); the client model panics only "
          "as a dead player or on an engine line without a word (client_total), never against the engine model (client_tei_no_panic). Every client session of the "
          "check (~160 quick: scripted and real engine processes) is run through the extracted client model: results and wire lines agree.",
